@@ -432,7 +432,7 @@ theorem parseLineGrains_post (isFault : Bool) (model : String) (c : Cur) :
 
 
 theorem parseSegment_post (ctx : Ctx R) (isFault : Bool) (seg : Cur) (anc : List Json) :
-    EPost (parseSegment ctx isFault seg anc) Segment.WellFormed := by
+    EPost (parseSegment ctx isFault seg anc) (fun s => s.TempsWellFormed → s.WellFormed) := by
   unfold parseSegment
   refine EPost.bind (EPost.triv _) (fun len _ => ?_)
   refine EPost.bind (EPost.triv _) (fun th _ => ?_)
@@ -448,19 +448,19 @@ theorem parseSegment_post (ctx : Ctx R) (isFault : Bool) (seg : Cur) (anc : List
   · rintro ⟨m, cc⟩ _; exact parseLineGrains_post isFault m cc
   refine EPost.bind (EPost.triv _) (fun _ _ => ?_)
   refine EPost.bind (EPost.triv _) (fun vels _ => ?_)
-  exact EPost.pure ⟨hcomps.2, hgrains.2⟩
+  exact EPost.pure (fun ht => ⟨hcomps.2, hgrains.2, ht⟩)
 
 theorem parseSegments_post (ctx : Ctx R) (isFault : Bool) (obj segSchema : Json) (anc : List Json) :
-    EPost (parseSegments ctx isFault obj segSchema anc) (fun segs => ∀ s ∈ segs, s.WellFormed) := by
+    EPost (parseSegments ctx isFault obj segSchema anc) (fun segs => ∀ s ∈ segs, s.TempsWellFormed → s.WellFormed) := by
   unfold parseSegments
   split
   · exact EPost.error
   · refine EPost.bind (EPost.triv _) (fun a _ => ?_)
-    exact (EPost.mapM _ Segment.WellFormed _ (fun sj _ => parseSegment_post ctx isFault _ anc)).mono (fun _ h => h.2)
+    exact (EPost.mapM _ (fun s => s.TempsWellFormed → s.WellFormed) _ (fun sj _ => parseSegment_post ctx isFault _ anc)).mono (fun _ h => h.2)
 
 
 theorem parseLine_post (ctx : Ctx R) (isFault : Bool) (c : Cur) (tags : List String) (cull : Bool) :
-    EPost (parseLine ctx isFault c tags cull) (fun r => r.1.WellFormed) := by
+    EPost (parseLine ctx isFault c tags cull) (fun r => r.1.TempsWellFormed → r.1.WellFormed) := by
   unfold parseLine
   extract_lets sph
   refine EPost.bind (EPost.triv _) (fun name _ => ?_)
@@ -476,10 +476,10 @@ theorem parseLine_post (ctx : Ctx R) (isFault : Bool) (c : Cur) (tags : List Str
   refine EPost.bind (EPost.triv _) (fun segSchema _ => ?_)
   refine EPost.bind (parseSegments_post ctx isFault _ _ _) (fun defaultSegs hdef => ?_)
   e_guard0; rename_i hne
-  refine EPost.bind (P := fun secs => secs.length = n ∧ ∀ sec ∈ secs, sec.length = defaultSegs.length ∧ ∀ s ∈ sec, s.WellFormed)
+  refine EPost.bind (P := fun secs => secs.length = n ∧ ∀ sec ∈ secs, sec.length = defaultSegs.length ∧ ∀ s ∈ sec, s.TempsWellFormed → s.WellFormed)
     ?_ (fun secs hsecs => ?_)
   · have hinit : (List.replicate n defaultSegs).length = n ∧
-        ∀ sec ∈ List.replicate n defaultSegs, sec.length = defaultSegs.length ∧ ∀ s ∈ sec, s.WellFormed := by
+        ∀ sec ∈ List.replicate n defaultSegs, sec.length = defaultSegs.length ∧ ∀ s ∈ sec, s.TempsWellFormed → s.WellFormed := by
       refine ⟨by simp, ?_⟩
       intro sec hsec
       have : sec = defaultSegs := (List.mem_replicate.1 hsec).2
@@ -505,7 +505,7 @@ theorem parseLine_post (ctx : Ctx R) (isFault : Bool) (c : Cur) (tags : List Str
   · have hpos : 0 < defaultSegs.length := by
       simp only [beq_iff_eq] at hne
       omega
-    refine EPost.pure ⟨by simpa using hlen, hsecs.1, ⟨defaultSegs.length, hpos, fun sec h => (hsecs.2 sec h).1⟩, hbz,
-      fun sec h => (hsecs.2 sec h).2⟩
+    refine EPost.pure (fun ht => ⟨by simpa using hlen, hsecs.1, ⟨defaultSegs.length, hpos, fun sec h => (hsecs.2 sec h).1⟩, hbz,
+      fun sec h s hs => (hsecs.2 sec h).2 s hs (ht sec h s hs)⟩)
 
 end Gwb
